@@ -178,7 +178,7 @@ for op in (2, 3, 9):
     co_jobs(op, 'release', 'quick', nslot=1, restmax=40)
 for op in (2, 3, 8, 9):
     co_jobs(op, 'release', 'thorough', timeout=3000, mem=16)
-co_jobs(7, 'release', 'thorough', nslot=1, restmax=40, timeout=3000, mem=16)      # two slots per block: no verdict within 3000 s under load
+co_jobs(7, 'release', 'quick', nslot=1, restmax=40, timeout=3000, mem=16)      # ~10 min; the query that found the allocate_array defect (eec373e)      # two slots per block: no verdict within 3000 s under load
 for op in (4, 6):
     co_jobs(op, 'baseline', 'thorough', timeout=3000, mem=16)
 # leak accounting (C15) needs a leak-checking configuration; 'leak' = leak counter only
@@ -187,7 +187,7 @@ for op in (4, 6, 10):
     co_jobs(op, 'leak', 'quick', timeout=1200)
 co_jobs(10, 'release', 'quick')
 co_jobs(2, 'leak', 'quick', nslot=1, restmax=40, timeout=1200)
-co_jobs(7, 'leak', 'thorough', nslot=1, restmax=40, timeout=3000, mem=16)
+co_jobs(7, 'leak', 'quick', nslot=1, restmax=40, timeout=3000, mem=16)
 
 # ---------------------------------------------------------------- adapters over recording leaves
 AD_COMP = {'direct': ['EXACT_SHAPE'], 'ref': ['EXACT_SHAPE'], 'any': [], 'ts': ['EXACT_SHAPE', 'EXPECT_MUTEX', 'LOCK_PROXY'], 'al': ['NEED_POW2_ARG'],
